@@ -6,6 +6,7 @@
 #define MYTH_TLS_H_
 
 #include "myth/myth.h"
+#include "myth/myth_spinlock.h"
 #include "myth_config.h"
 
 /* nuts and bolts for thread specific key
@@ -51,6 +52,10 @@ typedef struct myth_tls_key_entry {
 
 /* the toplevel data structure to allocate unsed keys from */
 typedef struct myth_tls_key_allocator {
+  /* serializes pops and pushes of the free list; a lock-free pop
+     (CAS head -> head->next) is subject to the ABA problem when keys
+     are created and deleted concurrently */
+  myth_spinlock_t lock;
   myth_tls_key_entry_t * free;	/* head of free list */
   myth_tls_key_entry_t keys[myth_tls_n_keys]; /* cells in the free list */
 } myth_tls_key_allocator_t;
